@@ -65,6 +65,8 @@ func scenarios(thorough bool) []*scenario {
 			Progs: []txn.Prog{W("T1", op("add", "a", 3, "t1")), W("T2", op("add", "a", 4, "t2"))}},
 		{Name: "writer-vs-reader-segment-values", Stores: []txn.StoreSpec{st("a", 4, "segment", 1, "x", 2, "y")},
 			Progs: []txn.Prog{W("T1", op("update", "a", 1, "n"), op("remove", "a", 2)), R("R", op("get", "a", 1), op("scan", "a", 0))}},
+		{Name: "two-cold-readers-and-writer-same-node", Stores: []txn.StoreSpec{st("a", 4, "node", 1, "x", 2, "y")},
+			Progs: []txn.Prog{R("R1", op("get", "a", 1), op("get", "a", 2)), R("R2", op("get", "a", 2), op("get", "a", 1)), W("T1", op("update", "a", 1, "n"))}},
 		{Name: "two-stores-opposite-order", Stores: []txn.StoreSpec{st("a", 4, "node", 1, "x"), st("b", 4, "active", 1, "y")},
 			Progs: []txn.Prog{W("T1", op("update", "a", 1, "t1"), op("update", "b", 1, "t1")), W("T2", op("update", "b", 1, "t2"), op("update", "a", 1, "t2"))}},
 	}
@@ -154,7 +156,11 @@ func main() {
 		for _, s := range sc.Stores {
 			names = append(names, s.Name)
 		}
-		rs := &rsched.Scenario{Classes: []string{"l2", "dio", "file"}, Epoch: epoch, TaskThreads: sc.Tasks,
+		classes := []string{"l2", "dio", "file", "l1"}
+		if sc.Tasks {
+			classes = classes[:3] // the task-thread scenarios are already large; L1 release points are explored in the others
+		}
+		rs := &rsched.Scenario{Classes: classes, Epoch: epoch, TaskThreads: sc.Tasks,
 			Setup: func(x *rsched.X) []func(ctx context.Context) {
 				sopenv.Restore(2)
 				e := &env{recs: make([]*txn.Record, len(sc.Progs))}
@@ -233,7 +239,7 @@ func main() {
 	os.RemoveAll("/dev/shm/verif_racex")
 	run.Set("evaluations", run.Coverage["executions"])
 	run.Set("distinct_nontrivial", run.Coverage["schedules_with_context_switch"])
-	run.Set("rule", "binary built with -race; every schedule with at most 1 deviation (2 in thorough) of 2-3 concurrent transactions through the public infs API under a scheduler that hands control over with raw pipe syscalls and keeps its state in //go:norace code (no happens-before edges of its own; decorators and UUID stream lock-free in this mode); after every execution the race detector's log is read; a report counts when it involves github.com/sharedcode/sop and neither racing access is in harness code")
+	run.Set("rule", "scheduling points: every L2 cache call, registry block and file operation, and (except in the two task-thread scenarios) the moment right after every non-deferred release of an L1 cache mutex; binary built with -race; every schedule with at most 1 deviation (2 in thorough) of 2-3 concurrent transactions through the public infs API under a scheduler that hands control over with raw pipe syscalls and keeps its state in //go:norace code (no happens-before edges of its own; decorators and UUID stream lock-free in this mode); after every execution the race detector's log is read; a report counts when it involves github.com/sharedcode/sop and neither racing access is in harness code")
 	run.Assumption("the race detector is happens-before based: it reports unsynchronised conflicting accesses of the explored executions only; file I/O inside the Go runtime (syscall.Read/Write) orders the goroutines that perform it, as in production")
 	run.Assumption("background maintenance started by Begin (onIdle) does not run on this tree (it returns before doing anything, see C09) and is therefore not exercised")
 	run.Finish()
